@@ -140,6 +140,7 @@ def _worker(task):
         out["prog"] = prog
         out["tree"] = r["tree"]
         out["content_bad"] = r.get("content_bad") or []
+        out["layout_bad"] = r.get("layout_bad")
         out["raced"] = r.get("raced", False)
         bad = [(i, s) for i, s in enumerate(r["steps"]) if s[3] is not None]
         worst = [(i, s) for i, s in bad if s[2] is not None and s[2][0] in ("panic", "hang", "dead")]
@@ -156,6 +157,8 @@ def prog_hash(prog):
 def classify(pid, res):
     """direct oracle on a disagreeing program: returns (concrete: bool, text)"""
     prog, fail = res["prog"], res.get("fail")
+    if res.get("layout_bad"):
+        return True, res["layout_bad"]
     if res.get("content_bad"):
         return True, "after this program (no damage step in it) " + res["content_bad"][0]
     if fail is None:
